@@ -108,3 +108,7 @@ S11 = Skel("S11", [Opt("port", "p", "opt", "int", default=80), Opt("flag", "f", 
 S12 = Skel("S12", [Opt("sure", "s", "opt", "bool", default=True), Opt("ratio", "r", "opt", "float", default=1.5)], [])
 SKELS_NATIVE = {"S11": S11, "S12": S12}
 SKELS_ALL.update(SKELS_NATIVE)
+
+# two flags and two value options with short names: grouped short spellings (C01)
+S13 = Skel("S13", [Opt("verbose", "v", "flag"), Opt("quiet", "q", "flag"), Opt("num", "n", "req", "int"), Opt("tag", "t", "opt", "str", default="dflt")], [Arg("a", "opt")])
+SKELS_ALL["S13"] = S13
